@@ -22,9 +22,34 @@ def schema_path():
     return os.path.join(vlib.WORK, name)
 
 
+def has_unsupported(f):
+    if isinstance(f, dict):
+        if f.get("k") == "unsupported":
+            return True
+        return any(has_unsupported(v) for v in f.values())
+    if isinstance(f, list):
+        return any(has_unsupported(v) for v in f)
+    return False
+
+
 def load_schemas():
+    """The formats regenerated from the source.  When a regenerated format contains a statement the translator does
+    not recognise (the proof obligations then fail closed), the implementation-side tests would have nothing to
+    generate values / parse results with: for THAT purpose only the format of the same type from the pinned
+    reference (gen/schemas_ref.json, produced from the tree this development was written against) stands in, and the
+    type is listed under j["fallback"].  The Coq side always sees the regenerated formats."""
     j = json.load(open(schema_path()))
-    return {t["name"]: t for t in j["types"]}, j
+    T = {t["name"]: t for t in j["types"]}
+    ref_path = os.path.join(vlib.VERIF, "gen", "schemas_ref.json")
+    j["fallback"] = []
+    if os.path.exists(ref_path):
+        R = {t["name"]: t for t in json.load(open(ref_path))["types"]}
+        for name, t in T.items():
+            for side in ("r", "w"):
+                if side in t and has_unsupported(t[side]) and name in R and side in R[name]:
+                    t[side] = R[name][side]
+                    j["fallback"].append("%s.%s" % (name, side))
+    return T, j
 
 
 # ------------------------------------------------------------------------------------------------
